@@ -6,7 +6,7 @@ from bounded import _dimwise_common as C
 from bounded.api import close, quiet
 
 BUDGET = {"quick": 60.0, "thorough": 840.0}
-BOUND = ("SpatiallyAdaptiveSingleDimensions2 + GlobalTrapezoidalGrid, d in {2,3}, (lmin,lmax) in {(1,2),(1,3),(2,3)}, versions "
+BOUND = ("SpatiallyAdaptiveSingleDimensions2 + GlobalTrapezoidalGrid, d in {2,3}, (lmin,lmax) in {(1,2),(1,3),(2,3)} (+ four fixed (2,4) histories, versions 2/3), versions "
          "{6,2,3,7,8}, rebalancing on/off (safety factor in {0,0.1,0.3}), boundary on/off, margin in {0.5,0.9,1.0}, 4 domains (unit, "
          "[-3,6]^d, anisotropic, non-dyadic), 3-6 refinement steps of the real performSpatiallyAdaptiv loop (tol=-1) driven by seeded "
          "adversarial errors per interval (arbitrary subsets >= margin*max incl. ties, zeros, all-zero rounds, single interval, "
@@ -131,8 +131,21 @@ def run_case(ctx, case):
     return steps
 
 
+def anchor_cases():
+    """fixed, seed independent histories: start levels with lmin >= 2 and lmax = lmin + 2 under the level-independent coarsening versions 2 / 3, refined one-sidedly
+    / deepest-first so that a region stays two levels coarser than lmax (the level-lmin component grids then differ from the level-(lmin+1) ones only through the
+    subtraction value; found by missed seed C03_7)"""
+    for version in (2, 3):
+        for style, oseed in (("deep", 631685690), ("edge_left", 77)):
+            yield {"kind": "adaptive", "d": 2, "lmin": 2, "lmax": 4, "version": version, "rebalancing": 0, "safety": 0.3, "boundary": 1, "margin": 0.9, "steps": 4,
+                   "domain": "unit", "style": style, "oseed": oseed}
+
+
 def run(ctx):
     quick = ctx.quick()
+    for case in anchor_cases():
+        ctx.case(case)
+        run_case(ctx, case)
     for case in C.covering_cases(ctx.rng, quick):
         if ctx.out_of_time(0.65 if quick else 0.85):
             ctx.note("covering cases cut by the time budget")
